@@ -215,6 +215,9 @@ def out_specs(F):
         ("log_fine", np.geomspace(lo, hi, 53)),
         ("same", F.copy()),
         ("two", np.array([lo + 0.3 * span, lo + 0.6 * span])),
+        # exactly one band survives the trimming and it overhangs the data at BOTH ends
+        ("log_one_band", np.array([lo / 40.0, math.sqrt(lo * hi), hi * 40.0])),
+        ("lin_one_band", np.array([lo - 4.0 * span, 0.5 * (lo + hi), hi + 4.0 * span])),
     ):
         outs.append(("freq", name, vec))
     return outs
@@ -253,10 +256,13 @@ def check_rescale(scale, res):
                             Pout, Fctr, msv, ms = psd.rescale(Pin, Fin, freq=fin, **kw)
                         if not (np.array_equal(Pin, P) and np.array_equal(Fin, F) and (fin is None or np.array_equal(fin, out[2]))):
                             msgs.append((case, "rescale modified its input arrays"))
-                    except ValueError as e:
+                    except (ValueError, IndexError) as e:
                         # documented trimming can leave nothing
                         if "zero-size" in str(e) or "attempt to get" in str(e):
                             res.exit("rescale: no output band overlaps the data")
+                            continue
+                        if out[0] == "freq" and frange is not None and np.count_nonzero((out[2] >= frange[0]) & (out[2] <= frange[-1])) < 2:
+                            res.exit("rescale: fewer than two output frequencies inside frange (band edges undefined)")
                             continue
                         msgs.append((case, "rescale raised %r" % (e,)))
                         continue
@@ -436,6 +442,17 @@ def check_resample(p, q, res):
             b = dsp.resample(X2.T, p, q, pts=pts, axis=0)
             X3 = np.stack((X2, X2 + 1.0))  # (2, 3, n)
             c = dsp.resample(np.moveaxis(X3, 2, 1), p, q, pts=pts, axis=1)  # (2, n, 3)
+            d3 = dsp.resample(np.moveaxis(X3, 2, 0), p, q, pts=pts, axis=0)  # (n, 2, 3) -> (nout, 2, 3)
+            X4 = np.stack((X3, -X3, X3 * 0.5))  # (3, 2, 3, n)
+            d4 = dsp.resample(np.moveaxis(X4, 3, 1), p, q, pts=pts, axis=1)  # (3, n, 2, 3) -> (3, nout, 2, 3)
+            d4n = dsp.resample(np.moveaxis(X4, 3, 1), p, q, pts=pts, axis=-3)
+            if d3.shape != (nout, 2, 3) or d4.shape != (3, nout, 2, 3):
+                msgs.append((case, "axis handling: 3-D axis=0 / 4-D axis=1 results have shapes %s %s, expected %s %s" % (d3.shape, d4.shape, (nout, 2, 3), (3, nout, 2, 3))))
+            elif a.shape == (3, nout):
+                want3 = np.stack((a, a + 1.0))  # (2, 3, nout)
+                if not (np.allclose(np.moveaxis(d3, 0, 2), want3, rtol=1e-11, atol=1e-11) and np.allclose(np.moveaxis(d4, 1, 3)[0], want3, rtol=1e-11, atol=1e-11)
+                        and np.allclose(np.moveaxis(d4, 1, 3)[1], -want3 + 0.0, rtol=1e-11, atol=1e-11) and np.array_equal(d4, d4n)):
+                    msgs.append((case, "axis handling: resampling a 3-D array along axis 0 or a 4-D array along axis 1 does not resample each signal on its own"))
             ok = a.shape == (3, nout) and b.shape == (nout, 3) and c.shape == (2, nout, 3)
             if ok:
                 ok = np.allclose(a[0], r, rtol=1e-12, atol=1e-12) and np.allclose(b.T, a, rtol=1e-12, atol=1e-12) and np.allclose(np.moveaxis(c, 1, 2)[0], a, rtol=1e-12, atol=1e-12)
